@@ -219,7 +219,7 @@ func (f *readFile) transmittable(rawLine *bytes.Buffer, length, capacity int,
 	re regex.Regex) (*line.Line, bool) {
 
 	newLine := line.Null()
-	if !re.Match(rawLine.Bytes()) {
+	if !re.Match(bytes.TrimSuffix(rawLine.Bytes(), []byte{'\n'})) {
 		f.updateLineNotMatched()
 		f.updateLineNotTransmitted()
 		return newLine, false
